@@ -249,7 +249,7 @@ class World:
         return self._mk(name, 'USESTR', q, t, {'sid': sid}, words=tuple(w))
 
     def vmf(self, q, t, result=0, ftype=1):
-        if q == 2:
+        if q != 1:       # END, or a stand-alone NONE / ALL record (then it is its own END record)
             return self._mk('MACH_vmfault', 'VMF', q, t, {'result': result, 'ftype': ftype},
                             words=(self.rnd.getrandbits(64), self.rnd.getrandbits(64), result, ftype))
         return self._mk('MACH_vmfault', 'VMF', q, t, {'result': 0, 'ftype': 0},
